@@ -445,7 +445,29 @@ class C05(RenderProp):
                 prop = (got is not None and got == want and (texts == "body" or void))
                 if not prop:
                     detail += " | tokenizer read %r expected %r" % (starts[:2], spec["attrs"])
+                    # what differs, for the known-finding predicate: same names in the same order, values differ
+                    if got is not None and [a[0] for a in got] == [a[0] for a in want] and (texts == "body" or void):
+                        case["_attr_diff"] = [[g[0], g[1], w[1]] for g, w in zip(got, want) if g[1] != w[1]]
         return corr, prop, detail
+
+    def known_C05_number_over_10_digits(self, case, impl):
+        """the recorded finding: a COMPUTED or DATA-DRIVEN number (pugjs.Number) with more than 10 significant digits (or of 1e10 and more) is
+        printed by Number.String() = big.Float.Text('g', 10), i.e. rounded to 10 digits / in exponent form. Explains a failure only if every differing attribute value
+        is exactly that rounding of the expected number and the attribute is not a bare number literal (those print digit for digit)."""
+        diff = case.get("_attr_diff")
+        if not diff:
+            return False
+        import re
+        lits = set()
+        for a in (case.get("doc") or [{}])[0].get("attrs", []) or []:
+            if isinstance(a, dict) and isinstance(a.get("val"), dict) and a["val"].get("t") == "num":
+                lits.add(a.get("name"))
+        for name, got, want in diff:
+            if name in lits or not re.fullmatch(r"-?\d+(\.\d+)?", want):
+                return False
+            if got != "%.10g" % float(want):
+                return False
+        return True
 
     def nontrivial(self, case, impl):
         return case.get("nattrs", 0) >= 2 and not case.get("_declined")
@@ -977,6 +999,8 @@ class C13(Prop):
         ip, idb = out_of((impl or {}).get("prod")), out_of((impl or {}).get("debug"))
         mp, mdb = out_of((model or {}).get("prod")), out_of((model or {}).get("debug"))
         declined = mp[0] in ("model-domain", "no-model") or mdb[0] in ("model-domain", "no-model")
+        if case.get("manifest"):
+            declined = True   # the module's asset() function and the manifest are not in the executor model: real outputs only
         case["_declined"] = declined
         def same(i, m):
             return i == m if (i[0] == "ok" or m[0] == "ok") else i[0] == m[0]
